@@ -15,7 +15,7 @@ func (e *e1) checkRetention(_ bool) {
 	cfg := e.cfg
 	streams := cfg.Streams()
 	bad := func(f string, a ...any) {
-		res.add("C18", "observation %d: %s", e.obsN, fmt.Sprintf(f, a...))
+		e.viol("C18", "observation %d: %s", e.obsN, fmt.Sprintf(f, a...))
 	}
 	// disk files == listed non-gap segments + the open one, per stream
 	if cfg.Disk {
